@@ -8,7 +8,7 @@ use serde::de::DeserializeOwned;
 use serde_json::Value;
 use std::collections::HashMap;
 use std::io::ErrorKind;
-use std::sync::atomic::{AtomicU64, Ordering};
+use std::sync::atomic::{AtomicBool, AtomicU64, Ordering};
 use std::sync::{Arc, Mutex as StdMutex};
 use tokio::io::AsyncWriteExt;
 use tokio::io::{BufReader, BufWriter};
@@ -31,6 +31,35 @@ struct AsyncClientInner {
     pending: StdMutex<PendingRequests>,
     next_id: AtomicU64,
     shutdown: StdMutex<Option<oneshot::Sender<()>>>,
+    /// Set once a request write was abandoned or failed part-way. The byte
+    /// stream may then end in a partial frame, so nothing more may be written.
+    write_failed: AtomicBool,
+}
+
+/// Fails the connection unless the frame was written completely.
+///
+/// `write_request` is cancellable at every await: a caller that is dropped while
+/// its frame is half written releases the writer mutex with a torn frame on the
+/// wire. Anything written after that could not be framed by the peer, so the
+/// guard marks the writer failed and wakes the response loop, which fails every
+/// pending call and shuts the socket down.
+struct WriteGuard<'a> {
+    inner: &'a AsyncClientInner,
+    complete: bool,
+}
+
+impl Drop for WriteGuard<'_> {
+    fn drop(&mut self) {
+        if self.complete {
+            return;
+        }
+        self.inner.write_failed.store(true, Ordering::Release);
+        if let Ok(mut tx) = self.inner.shutdown.lock()
+            && let Some(sender) = tx.take()
+        {
+            let _ = sender.send(());
+        }
+    }
 }
 
 impl Drop for AsyncClientInner {
@@ -107,6 +136,7 @@ impl AsyncClient {
             pending: StdMutex::new(HashMap::new()),
             next_id: AtomicU64::new(1),
             shutdown: StdMutex::new(Some(shutdown_tx)),
+            write_failed: AtomicBool::new(false),
         });
 
         spawn_response_loop(
@@ -666,8 +696,19 @@ impl AsyncClient {
 
     async fn write_request(&self, msg: &Message) -> Result<(), RepeError> {
         let mut writer = self.inner.writer.lock().await;
+        if self.inner.write_failed.load(Ordering::Acquire) {
+            return Err(RepeError::Io(std::io::Error::new(
+                ErrorKind::BrokenPipe,
+                "connection failed by an interrupted request write",
+            )));
+        }
+        let mut guard = WriteGuard {
+            inner: &self.inner,
+            complete: false,
+        };
         write_message_async(&mut *writer, msg).await?;
         writer.flush().await?;
+        guard.complete = true;
         Ok(())
     }
 
@@ -831,6 +872,17 @@ fn spawn_response_loop(
         loop {
             let response = tokio::select! {
                 _ = &mut shutdown_rx => {
+                    // Either the last client handle is gone (nothing is pending)
+                    // or a request write was interrupted mid-frame: fail whoever
+                    // is still waiting and shut the socket down.
+                    fail_all_pending(
+                        &inner,
+                        RepeError::Io(std::io::Error::new(
+                            ErrorKind::ConnectionAborted,
+                            "connection closed after an interrupted request write",
+                        )),
+                    )
+                    .await;
                     break;
                 }
                 read = read_message_async(&mut reader) => {
